@@ -36,14 +36,19 @@ def sh(cmd, timeout=None, env=None, cwd=None, check=False):
     return p.returncode, p.stdout, p.stderr
 
 
+_ALT = "" if REPO == "/repo" else "-alt-" + hashlib.md5(REPO.encode()).hexdigest()[:8]
+
+
 def rundir(prop):
-    d = os.path.join(BUILD, "run", prop)
+    # a run against a scratch worktree (VERIF_REPO) gets its own directories so that it can run next to a
+    # check of the real tree
+    d = os.path.join(BUILD, "run" + _ALT, prop)
     os.makedirs(d, exist_ok=True)
     return d
 
 
 def replay_dir(prop):
-    d = os.path.join(BUILD, "replay", prop)
+    d = os.path.join(BUILD, "replay" + _ALT, prop)
     os.makedirs(d, exist_ok=True)
     return d
 
